@@ -77,7 +77,9 @@ FLOAT_SPECIALS = [0.0, -0.0, 1.0, -1.0, 1.5, -2.25, 0.1, 100.0, -100.0,
                   1e15 + 0.5, 0.30000000000000004, 123456.789, 'inf', '-inf',
                   # a few ulps off a whole number
                   3.0000000000000004, 110.00000000000001, -3.0000000000000004,
-                  0.9999999999999999, 2.0000000000000004]
+                  0.9999999999999999, 2.0000000000000004,
+                  # so small that products underflow
+                  1e-200, 3e-170, -1e-200, -3e-170]
 FLOAT32_SPECIALS = [0.0, -0.0, 1.0, -1.0, 1.5, -2.25, 100.0, 3.0, 0.5,
                     3.4028234663852886e38, -3.4028234663852886e38,
                     1.401298464324817e-45, 16777216.0, 'inf', '-inf']
@@ -293,6 +295,19 @@ def build_series(col):
         return pd.Series(pd.array([pd.NA if v is None else v for v in vals],
                                   dtype='boolean'))
     if kind in ('obool', 'ostr', 'odate', 'odatetime'):
+        if kind == 'ostr' and len(vals) % 2 == 1 and sum(
+                1 for v in vals if v is None) >= 2:
+            # nulls of more than one kind in one object column (None and
+            # NaN, as after a merge of sources)
+            k = 0
+            mixed = []
+            for v in vals:
+                if v is None:
+                    mixed.append(None if k % 2 == 0 else float('nan'))
+                    k += 1
+                else:
+                    mixed.append(v)
+            return pd.Series(mixed, dtype=object)
         return pd.Series(vals, dtype=object)
     if kind == 'cat':
         extra = col.get('unused_categories')
